@@ -540,6 +540,44 @@ def area_nan(rng, a):
     return kind
 
 
+def gen_mean(rng):
+    data = grid(rng, [0.0, 1.0, 2.0, 3.0, -1.0, 0.5, NAN, NAN, INF], 5, 5)
+    ex = rng.choice([[NAN], [NAN], [], [0.0], [NAN, 1.0], [INF], [2.0, 3.0]])
+    return dict(data=data.tolist(), ex=ex)
+
+
+def line_mean(c):
+    return f"af.data={farr(c['data'])} af.excludes={farr(c['ex'])}"
+
+
+def real_mean(c):
+    f = mod("xrspatial.focal")._mean_numpy
+    d, ex = np.array(c["data"], dtype=np.float64), np.array(c["ex"], dtype=np.float64)
+    out = f(d, ex)
+    return ["ret", farr(out), farr(d), farr(ex)]
+
+
+def gen_apply(rng):
+    kh, kw = rng.choice([1, 3, 3, 5]), rng.choice([1, 3, 3, 5])
+    data = grid(rng, [0.0, 1.0, 2.0, 3.0, -1.0, 0.5, 8.0, NAN, NAN], 6, 6)
+    pool = [1.0, 1.0, 1.0, 0.0, 0.0] + ([2.0, 0.5, -1.0, NAN] if rng.random() < 0.3 else [])
+    kernel = np.array(pick_vals(rng, pool, kh * kw)).reshape(kh, kw)
+    return dict(data=data.tolist(), kernel=kernel.tolist())
+
+
+def line_apply(c):
+    return f"af.data={farr(c['data'])} af.kernel={farr(c['kernel'])}"
+
+
+def real_apply(fname):
+    def real(c):
+        fo = mod("xrspatial.focal")
+        d, k = np.array(c["data"], dtype=np.float64), np.array(c["kernel"], dtype=np.float64)
+        out = fo._apply_numpy(d, k, getattr(fo, fname))
+        return ["ret", farr(out), farr(d), farr(k)]
+    return real
+
+
 def gen_area(rng):
     mode = rng.choice(["rand", "rand", "shape", "shape", "many", "close", "close", "line", "nan"])
     h, w = rng.randint(1, 7), rng.randint(1, 8)
@@ -706,7 +744,8 @@ def real_vs(c):
 
 
 # programs whose numeric results go through libm / float32 rounding: compared within this relative tolerance
-TOL = {"calcDirection": 1e-6, "processNumpy": 1e-6}
+TOL = {"calcDirection": 1e-6, "processNumpy": 1e-6, "applyMean": 1e-6, "applySum": 1e-6, "applyMin": 1e-6,
+       "applyMax": 1e-6, "applyRange": 1e-6, "applyStd": 2e-6, "applyVar": 2e-6}
 
 SPECS = {
     "cpuBin": (gen_cpu_bin, line_cpu_bin, real_cpu_bin),
@@ -724,6 +763,14 @@ SPECS = {
     "processNumpy": (gen_process, line_process, real_process),
     "calcDirection": (gen_direction, line_direction, real_direction),
     "areaConnectivity": (gen_area, line_area, real_area),
+    "meanNumpy": (gen_mean, line_mean, real_mean),
+    "applyMean": (gen_apply, line_apply, real_apply("_calc_mean")),
+    "applySum": (gen_apply, line_apply, real_apply("_calc_sum")),
+    "applyMin": (gen_apply, line_apply, real_apply("_calc_min")),
+    "applyMax": (gen_apply, line_apply, real_apply("_calc_max")),
+    "applyRange": (gen_apply, line_apply, real_apply("_calc_range")),
+    "applyStd": (gen_apply, line_apply, real_apply("_calc_std")),
+    "applyVar": (gen_apply, line_apply, real_apply("_calc_var")),
     "vsInsert": (gen_vs("insert"), line_vs, real_vs),
     "vsDelete": (gen_vs("delete"), line_vs, real_vs),
     "vsSearch": (gen_vs("search"), line_vs, real_vs),
